@@ -4,9 +4,20 @@
 (* current, download_to_file, force_refresh_currency, load), shaped like   *)
 (* the code: one action per file-system step (open / create temp / write / *)
 (* fsync / rename / unlink) plus the decisions in between (transfer ends,  *)
-(* status check, fall back to the stale file, load).  The process may be   *)
-(* killed in every state (Crash); a second start with the server down      *)
-(* follows every first run (NextStart).                                    *)
+(* status check, validation of the downloaded document, fall back to the   *)
+(* stale file, load).  The process may be killed in every state (Crash); a *)
+(* second start with the server down follows every first run (NextStart),  *)
+(* and after that a third run against a healthy server with the cache aged *)
+(* past cache_duration (Recovery): whatever the earlier runs left behind,  *)
+(* it must install the new contents.                                       *)
+(*                                                                         *)
+(* A 200 answer is framed by Content-Length ("ok", "cut", "stall": a short *)
+(* body is a transfer error for the client) or delimited by the end of the *)
+(* connection ("okclose", "cutclose": no Content-Length, no chunks - the   *)
+(* client sees an orderly end of the body wherever the server stopped, the *)
+(* transfer "succeeds").  Only the CONTENT tells a cut close-delimited     *)
+(* body from a complete one: the document does not parse.  Hence Validate  *)
+(* between the status check and the rename.                                *)
 (*                                                                         *)
 (* File contents are [kind, len]: "old" / "garbage" = what was in the      *)
 (* cache before, "new" = a prefix of the body a 200 answer carries (len =  *)
@@ -28,10 +39,13 @@ CONSTANTS NewLen,        \* length of the complete new body (> 0)
           ChunkSizes,    \* admissible sizes of one write
           NetMayFail,    \* BOOLEAN: the transfer may also fail early / against a well-behaved server
           MayLeaveLitter,\* BOOLEAN: a failed refresh may leave its temp file behind (not a violation)
+          CloseDelimited,\* BOOLEAN: the server may also answer without Content-Length ("okclose" / "cutclose")
           \* ---- protocols that are NOT the code's (each must violate the property) ----
           WriteInPlace,              \* body is written straight into the cache path (File::create)
           PersistBeforeStatusCheck,  \* rename first, look at the status afterwards
           TruncatedIsSuccess,        \* a transfer error after the headers is ignored
+          SkipValidation,            \* whatever arrived with status 200 is renamed into place unread
+          FixedTempName,             \* the temp file has one fixed name and is created with O_EXCL
           NoStaleFallback,           \* a failed refresh does not fall back to the stale file
           AbortOnRefreshError        \* a failed refresh aborts the start
 
@@ -42,7 +56,8 @@ VARIABLES prior,    \* "absent" | "fresh" | "stale" | "garbage" | "garbage_fresh
           age,      \* "fresh" | "stale" | "none": its mtime against cache_duration
           tmp,      \* contents of this run's temp file, NoFile if none
           litter,   \* number of temp files left behind
-          pc, run,  \* program counter of the running process; 1 = the run under test, 2 = the next start
+          pc, run,  \* program counter of the running process; 1 = the run under test, 2 = the next start (server
+                    \* down), 3 = a later run against a healthy server
           sent,     \* body bytes handed to the write callback so far
           status,   \* response code seen by the client (0 = none)
           refresh,  \* "none" | "ok" | "failed": what download_to_file returned in this run
@@ -77,14 +92,26 @@ Servers ==
   \cup {[mode |-> "stall", k |-> c, code |-> 200] : c \in Cuts \cup {-1}}   \* -1: not even headers
   \cup {[mode |-> "status", k |-> ErrLen, code |-> c] : c \in Codes}
   \cup {Refused}
+  \cup (IF CloseDelimited
+        THEN {[mode |-> "okclose", k |-> NewLen, code |-> 200]}
+             \cup {[mode |-> "cutclose", k |-> c, code |-> 200] : c \in Cuts}
+        ELSE {})
 
-Srv == IF run = 1 THEN server ELSE Refused        \* the next start finds the server down
-Ent == IF run = 1 THEN entry ELSE "startup"
+Healthy == [mode |-> "ok", k |-> NewLen, code |-> 200]
+Srv == CASE run = 1 -> server
+         [] run = 2 -> Refused                    \* the next start finds the server down
+         [] OTHER   -> Healthy                    \* the run after that finds it in good health
+Ent == IF run = 2 THEN "startup" ELSE entry       \* run 3 enters where run 1 did
+
+LengthFramed == Srv.mode \in {"ok", "cut", "stall", "status"}
+Succeeds     == {"ok", "okclose"}                 \* the server behaviours that deliver the complete new body
 
 BodyKind  == IF Srv.mode = "status" THEN "err" ELSE "new"
 BodyLimit == IF Srv.k < 0 THEN 0 ELSE Srv.k
-HeadersSeen == Srv.mode \in {"ok", "cut", "status"} \/ (Srv.mode = "stall" /\ Srv.k >= 0)
+HeadersSeen == Srv.mode \in {"ok", "cut", "status", "okclose", "cutclose"} \/ (Srv.mode = "stall" /\ Srv.k >= 0)
 Valid(c) == c.kind \in {"old", "new"} /\ c.len = NewLen
+\* the currency document parses: every proper prefix of it does not (its last token closes the outermost array)
+Parses(c) == c.kind = "new" /\ c.len = NewLen
 NoR1 == [refresh |-> "none", used |-> "none", fellback |-> FALSE, started |-> FALSE, crashed |-> FALSE, aged |-> FALSE]
 
 -----------------------------------------------------------------------------
@@ -112,22 +139,27 @@ Init == \E p \in Priors, s \in Servers, e \in {"startup", "fetch"} :
 
 Fixed == UNCHANGED <<prior, server, entry, run, r1>>
 
-(* ---- cached(): File::open + read_if_current   (config.rs:443-447, 360-373) ---- *)
+(* ---- cached(): File::open + read_if_current   (config.rs: cached, read_if_current) ---- *)
 ReadIfCurrent ==
   /\ pc = "cached"
   /\ pc' = IF cache.kind # "absent" /\ age = "fresh" THEN "load" ELSE "download"
   /\ Fixed /\ UNCHANGED <<cache, age, tmp, litter, sent, status, refresh, used, fellback, started>>
 
-(* ---- download_to_file: tempfile_in(cache dir)   (config.rs:390-393) ---- *)
+(* ---- download_to_file: tempfile_in(cache dir) ---- *)
+AfterFail == IF Ent = "fetch" THEN "done" ELSE "failed"
+
 CreateTemp ==
   /\ pc = "download"
-  /\ IF WriteInPlace
-     THEN cache' = Empty /\ age' = "fresh" /\ tmp' = tmp      \* File::create(path): truncates the cache itself
-     ELSE tmp' = Empty /\ cache' = cache /\ age' = age
-  /\ sent' = 0 /\ pc' = "transfer"
-  /\ Fixed /\ UNCHANGED <<litter, status, refresh, used, fellback, started>>
+  /\ IF FixedTempName /\ litter > 0
+     THEN /\ pc' = AfterFail /\ refresh' = "failed"             \* O_EXCL: "File exists" - a killed run left the name taken
+          /\ UNCHANGED <<cache, age, tmp, sent>>
+     ELSE /\ IF WriteInPlace
+             THEN cache' = Empty /\ age' = "fresh" /\ tmp' = tmp      \* File::create(path): truncates the cache itself
+             ELSE tmp' = Empty /\ cache' = cache /\ age' = age
+          /\ sent' = 0 /\ pc' = "transfer" /\ refresh' = refresh
+  /\ Fixed /\ UNCHANGED <<litter, status, used, fellback, started>>
 
-(* ---- write callback: one call per piece of body received   (config.rs:404-410) ---- *)
+(* ---- write callback: one call per piece of body received ---- *)
 WriteChunk(n) ==
   /\ pc = "transfer" /\ n > 0
   /\ Srv.mode # "refused" /\ HeadersSeen
@@ -138,11 +170,12 @@ WriteChunk(n) ==
      ELSE tmp' = [kind |-> BodyKind, len |-> sent + n] /\ cache' = cache
   /\ Fixed /\ UNCHANGED <<age, litter, pc, status, refresh, used, fellback, started>>
 
-(* ---- easy.perform() returns   (config.rs:410) ---- *)
+(* ---- easy.perform() returns ---- *)
 TransferEnds(r) ==
   /\ pc = "transfer"
-  /\ \/ /\ r = "ok"                     \* everything announced by Content-Length has arrived
-        /\ Srv.mode \in {"ok", "status"} /\ sent = BodyLimit
+  /\ \/ /\ r = "ok"                     \* everything announced by Content-Length has arrived, or the server
+        \* closed a body that is delimited by the close: complete as far as HTTP can tell, wherever it stopped
+        /\ Srv.mode \in {"ok", "status", "okclose", "cutclose"} /\ sent = BodyLimit
         /\ status' = Srv.code
         /\ pc' = IF PersistBeforeStatusCheck THEN "sync" ELSE "status"
         /\ refresh' = refresh
@@ -160,23 +193,34 @@ TransferEnds(r) ==
 
 AfterOk == IF Ent = "fetch" THEN "done" ELSE "load"
 
-(* ---- if status != 200 { return Err }   (config.rs:412-419) ---- *)
+(* ---- if status != 200 { return Err } ---- *)
 CheckStatus ==
   /\ pc = "status"
   /\ IF status = 200
+     THEN pc' = "validate" /\ refresh' = refresh
+     ELSE pc' = "drop" /\ refresh' = "failed"
+  /\ Fixed /\ UNCHANGED <<cache, age, tmp, litter, sent, status, used, fellback, started>>
+
+(* ---- the downloaded file is read back and must parse as the currency document before it may replace ---- *)
+(* ---- the cache; otherwise the refresh fails like any other failed download                          ---- *)
+Downloaded == IF tmp # NoFile THEN tmp ELSE cache      \* (the broken protocols have it in the cache already)
+
+Validate ==
+  /\ pc = "validate"
+  /\ IF SkipValidation \/ Parses(Downloaded)
      THEN IF PersistBeforeStatusCheck
           THEN pc' = AfterOk /\ refresh' = "ok"
           ELSE pc' = "sync" /\ refresh' = refresh
      ELSE pc' = "drop" /\ refresh' = "failed"
   /\ Fixed /\ UNCHANGED <<cache, age, tmp, litter, sent, status, used, fellback, started>>
 
-(* ---- sync_all: optional as far as the property goes (crash = process kill)   (config.rs:421) ---- *)
+(* ---- sync_all: optional as far as the property goes (crash = process kill) ---- *)
 Sync ==
   /\ pc = "sync"
   /\ pc' = "persist"
   /\ Fixed /\ UNCHANGED <<cache, age, tmp, litter, sent, status, refresh, used, fellback, started>>
 
-(* ---- temp_file.persist(path): rename(temp, cache)   (config.rs:424-426) ---- *)
+(* ---- temp_file.persist(path): rename(temp, cache) ---- *)
 Persist ==
   /\ pc \in {"sync", "persist"}
   /\ IF WriteInPlace
@@ -188,8 +232,6 @@ Persist ==
   /\ Fixed /\ UNCHANGED <<litter, sent, status, used, fellback, started>>
 
 (* ---- drop of the NamedTempFile on the error paths: unlink(temp) ---- *)
-AfterFail == IF Ent = "fetch" THEN "done" ELSE "failed"
-
 DropTemp ==
   /\ pc = "drop"
   /\ tmp' = NoFile /\ litter' = litter
@@ -203,7 +245,7 @@ AbandonTemp ==      \* the temp file stays behind: litter, not a violation
   /\ pc' = AfterFail
   /\ Fixed /\ UNCHANGED <<cache, age, sent, status, refresh, used, fellback, started>>
 
-(* ---- cached(): second File::open after a failed download   (config.rs:454-466) ---- *)
+(* ---- cached(): second File::open after a failed download ---- *)
 FallbackStale ==
   /\ pc = "failed"
   /\ IF AbortOnRefreshError
@@ -240,12 +282,21 @@ NextStart ==
   /\ sent' = 0 /\ status' = 0 /\ refresh' = "none" /\ used' = "none" /\ fellback' = FALSE /\ started' = FALSE
   /\ UNCHANGED <<prior, server, entry, cache, tmp, litter>>
 
+(* ---- some time later: the server is healthy again and the cache, if there is one, is past cache_duration. ---- *)
+(* ---- Nothing the earlier runs left behind (a temp file of a killed download, ...) may decide this refresh ---- *)
+Recovery ==
+  /\ run = 2 /\ pc \in {"done", "crashed"}
+  /\ age' = IF cache.kind = "absent" THEN "none" ELSE "stale"
+  /\ run' = 3 /\ pc' = IF entry = "startup" THEN "cached" ELSE "download"
+  /\ sent' = 0 /\ status' = 0 /\ refresh' = "none" /\ used' = "none" /\ fellback' = FALSE /\ started' = FALSE
+  /\ UNCHANGED <<prior, server, entry, cache, tmp, litter, r1>>
+
 Step == \/ ReadIfCurrent \/ CreateTemp
         \/ \E n \in ChunkSizes : WriteChunk(n)
         \/ TransferEnds("ok") \/ TransferEnds("err")
-        \/ CheckStatus \/ Sync \/ Persist \/ DropTemp \/ AbandonTemp \/ FallbackStale \/ Load
+        \/ CheckStatus \/ Validate \/ Sync \/ Persist \/ DropTemp \/ AbandonTemp \/ FallbackStale \/ Load
 
-Next == Step \/ Crash \/ NextStart
+Next == Step \/ Crash \/ NextStart \/ Recovery
 
 Spec == Init /\ [][Next]_vars
 
@@ -255,7 +306,7 @@ Spec == Init /\ [][Next]_vars
 TypeOK ==
   /\ prior \in Priors /\ entry \in {"startup", "fetch"}
   /\ cache.len \in 0..(IF NewLen > ErrLen THEN NewLen ELSE ErrLen)
-  /\ run \in {1, 2} /\ litter \in 0..2
+  /\ run \in {1, 2, 3} /\ litter \in 0..3
   /\ refresh \in {"none", "ok", "failed"} /\ used \in {"none", "old", "new"}
 
 \* the refresh verdict of the run under test, also while the next start is running
@@ -265,11 +316,14 @@ Refresh1 == IF run = 1 THEN refresh ELSE r1.refresh
 \* state, hence also after a kill in any state
 Atomic == cache = PriorC \/ cache = NewC
 
-\* after a failed refresh the cache is unchanged
-FailKeeps == Refresh1 = "failed" => cache = PriorC
+\* after a failed refresh the cache is unchanged (until a later refresh succeeds: run 3)
+FailKeeps == (run <= 2 /\ Refresh1 = "failed") => cache = PriorC
 
 \* ... and it changes only through a refresh that succeeded
-ChangeOnlyOnSuccess == cache # PriorC => Refresh1 = "ok"
+ChangeOnlyOnSuccess == (run <= 2 /\ cache # PriorC) => Refresh1 = "ok"
+
+\* a refresh succeeds only against a server that delivered the complete new body
+SuccessIsComplete == Refresh1 = "ok" => server.mode \in Succeeds
 
 \* a successful refresh is seen by this start (if it is one) and by the next start
 SuccessVisible ==
@@ -284,6 +338,13 @@ StartsAnyway == (pc = "done" /\ Ent = "startup") => started
 FallsBack ==
   /\ (pc = "done" /\ Ent = "startup" /\ Valid(cache)) => used = cache.kind
   /\ (pc = "done" /\ Ent = "startup" /\ refresh = "failed" /\ Valid(cache)) => fellback
+
+\* a refresh against a healthy server installs the new contents, whatever happened before (kills included);
+\* stated for the deterministic network (with NetMayFail this very transfer may fail as well)
+Recovers ==
+  (run = 3 /\ pc = "done" /\ ~NetMayFail) =>
+      /\ cache = NewC /\ refresh = "ok"
+      /\ (Ent = "startup" => used = "new")
 
 \* no run gets stuck
 NoStuck == pc \notin {"done", "crashed"} => ENABLED Step
